@@ -1619,9 +1619,9 @@ class Reaction(Object):
                     met_id = term
                     num = factor
                 met_id += compartment
-                try:
+                if model is not None and model.metabolites.has_id(met_id):
                     met = model.metabolites.get_by_id(met_id)
-                except KeyError:
+                else:
                     if verbose:
                         print(f"unknown metabolite '{met_id}' created")
                     met = Metabolite(met_id)
